@@ -293,3 +293,44 @@ Definition batch_ok (b : batch) : bool :=
   match route b with Delivered _ _ => true | RoutePanic => false end.
 
 Definition sent_ok (bs : list batch) : bool := forallb batch_ok bs.
+
+(* ---------------------------------------------------------------------------------------------
+   Downstream of route (round 5): the message handler of the destination chain.  route hands every
+   message of the batch to ReceiveMessage of the destination chain = MessageHandler.HandleMessage ->
+   the handler registered for the message type (EVM TransferMessageHandler and its per-transfer-type
+   functions, SubstrateMessageHandler, BTC FungibleMessageHandler), ON THE ROUTE GOROUTINE.  What a
+   handler does with a message is a function of the message alone (the handlers have no state): a
+   proposal, an error (route reports the message as failed and goes on with the next message of the
+   batch), or a panic - which nothing recovers: the relayer process dies, and no proposal of the
+   batch reaches Write.  Which of the three a given message gets is not modelled here (the byte-level
+   model of the handlers is C01's); it is a parameter. *)
+Inductive recv := RProp | RErr | RPanic.
+
+Section Downstream.
+  Variable h : msg -> recv.
+
+  (* the proposals of a batch, in order; None: a handler panicked *)
+  Fixpoint receive (l : list msg) : option (list msg) :=
+    match l with
+    | [] => Some []
+    | m :: r =>
+        match h m with
+        | RPanic => None
+        | RErr => receive r
+        | RProp => match receive r with Some w => Some (m :: w) | None => None end
+        end
+    end.
+
+  (* route with the handler: Delivered k w = the proposals of w were written to chain k *)
+  Definition route_h (b : batch) : routed :=
+    match route b with
+    | Delivered k l => match receive l with Some w => Delivered k w | None => RoutePanic end
+    | RoutePanic => RoutePanic
+    end.
+End Downstream.
+
+(* The judge on what was observed downstream: the runner hands every message that arrives at a
+   destination chain to the REAL message handler of each chain kind (1 EVM, 2 Substrate, 3 BTC) and
+   reports the (kind, message) pairs on which the handler panicked.  There must be none. *)
+Definition down_ok (hp : list (N * msg)) : bool :=
+  match hp with [] => true | _ :: _ => false end.
